@@ -180,6 +180,25 @@ def run(chk):
                        "other live sandbox's region against the model's memory; loads by dereference, UNSAFE_unverified, copy_and_verify (pointer), copy_and_verify_range, p[1] against the "
                        "reference decoding of exactly guestSize bytes")
     chk.add_samples([{"op": o, "impl": a[:80], "model": b[:80]} for o, a, b in list(zip(ops, res["impl"], res["model"]))[::max(1, len(ops) // 6)]])
+    # sandbox reference := sandbox reference of another integer type (`*p_T = *p_U`), all three ABIs: the source is read with
+    # ITS guest width and encoding, the destination written with its own, nothing around either cell changes (conv engine)
+    from checks import c06
+    cbin, clog = core.build_harness("h_conv", ["h_conv.cpp"], core.FAST)
+    if cbin is None:
+        chk.fail("harness h_conv does not compile against the current headers", {"log_tail": clog[-3000:]}, found=False)
+        return
+    ops2 = []
+    ints = ("schar", "uchar", "short", "ushort", "int", "uint", "long", "ulong", "llong")
+    for abi in c06.ABIS:
+        for t in ints:
+            for u in ints:
+                if t != u:
+                    g, gu = c06.guest_of(abi, t), c06.guest_of(abi, u)
+                    vs = c06.boundary_values(g, gu, rng, 1)
+                    for v in (vs if thorough else rng.sample(vs, min(len(vs), 12))):
+                        ops2.append(f"tvtv {abi} {t} {u} {v}")
+    core.differential(chk, ops2, cbin, c06.oracle, label="mixed-type copies between sandbox references")
+    kinds["tvtv"] = len(ops2)
     chk.cov["trusted_base"] += ["C07: bool loads from non-canonical bytes are undefined behaviour of the C++ object model and are not judged; float/double/struct footprints are covered by C08; pointer stores: `pfoot` (32 bytes around the cell)",
                                 "theorems C07_frame/C07_roundtrip/C07_decode cover integer types under every well-formed ABI"]
 
